@@ -34,12 +34,18 @@ def common_key_arrays(key_left, key_right):
     """
     Cast a pair of key arrays to their common dtype (e.g. int32 and int64 to
     int64, '<U3' and '<U6' to '<U6'), so that keys that are equal by value
-    also have the same bytes in :func:`concatenate_arrays`.
+    also have the same bytes in :func:`concatenate_arrays`. For floating-point
+    keys -0.0 is replaced by 0.0 (equal values, different sign bit).
     """
     key_left = np.asarray(key_left)
     key_right = np.asarray(key_right)
     dtype = np.result_type(key_left.dtype, key_right.dtype)
-    return key_left.astype(dtype, copy=False), key_right.astype(dtype, copy=False)
+    key_left = key_left.astype(dtype, copy=False)
+    key_right = key_right.astype(dtype, copy=False)
+    if dtype.kind in 'fc':
+        key_left = key_left + 0
+        key_right = key_right + 0
+    return key_left, key_right
 
 
 def get_mask_with_key_joins(data, key_joins, subset_state, view=None):
@@ -76,18 +82,23 @@ def get_mask_with_key_joins(data, key_joins, subset_state, view=None):
 
             key_left_all = []
             key_right_all = []
+            valid = True
 
             for cid1_i, cid2_i in zip(cid1, cid2):
                 key_left = data.get_data(cid1_i, view=view).ravel()
                 key_right = other.get_data(cid2_i, view=mask_right).ravel()
                 key_left, key_right = common_key_arrays(key_left, key_right)
+                if key_left.dtype.kind in 'fc':
+                    # as in np.isin, a NaN key is not equal to any key, even
+                    # though the bytes of two NaN values can be the same
+                    valid = valid & ~np.isnan(key_left)
                 key_left_all.append(key_left)
                 key_right_all.append(key_right)
 
             key_left_all = concatenate_arrays(*key_left_all)
             key_right_all = concatenate_arrays(*key_right_all)
 
-            mask = np.isin(key_left_all, key_right_all)
+            mask = np.isin(key_left_all, key_right_all) & valid
 
             return mask.reshape(data.get_data(cid1_i, view=view).shape)
 
